@@ -12,7 +12,8 @@ LEDGER_PROFILES = {
             (['m01', 'm03', 'm04', 'm05', 'm10'], PLAINR, 80, 800),
             (['m19'], PLAINR, 150, 1500)],      # the outermost machine itself has a history policy; stop / start again
     'C17': [(['m08', 'm10'], FXR, 250, 2500),
-            (['m08', 'm10'], dict(reads=True, effects=0.2), 150, 1500)],
+            (['m08', 'm10'], dict(reads=True, effects=0.2), 150, 1500),
+            (['m21'], FXR, 150, 1500)],         # three regions of simple states: the AND form over every region
 }
 LRULES = {
     'C03': 'distinct full active configurations (tuple of active states at every active level) seen at quiescent points, x introspection API (ids, is_state_active, visitors), plus start/stop classes',
